@@ -132,6 +132,7 @@ c_Fixed == {tla(set(fixed))}
  RWCounts <- c_RWCounts
  RWTail = {rwtail}
  RWDev = {rwdev}
+ RWMonotone = TRUE
  Fixed <- c_Fixed
 """
     return mod, consts
@@ -401,9 +402,32 @@ def b2_real_runs(chk: Check, pid: str):
             if clause == "known:F16":
                 if pid == "C02":
                     chk.violation("F16 on a real run", None, known_key="F16")
+            elif clause.startswith("assume."):
+                chk.count("b2_" + clause.replace(".", "_") + "_not_met")
             elif clause.startswith(pid + ".") or clause.startswith("trace."):
                 chk.violation(f"{pid}: real {d['method']} run (pipe {d['pipe']}, flow {d['flow']}, regime {d['regime']}, {d['months']} months, seed {d['seed']}): {clause}",
                               {"scenario": d, "failed": sorted(verdicts[i]), "events": r["events"][:60]})
+    # step by step: is the recorded real run a behaviour of Search.tla (with the run's own numbers as the oracle)?
+    from . import steptrace  # noqa: PLC0415
+
+    usable = [r for r in runs if not r["desc"].get("nan_in_eft")]
+    stat = {"accepted": 0, "rejected": 0, "skipped": 0, "property": 0, "error": 0}
+    inv_owner = {i: p for p, lst in INVS.items() for i in lst}
+    inv_owner.update({"LiveIsSelected": "C12", "NeverUnreachable": "C02"})
+    for r, v in zip(usable, steptrace.validate(usable)):
+        stat[v["status"]] += 1
+        d = r["desc"]
+        if v["status"] == "error":
+            raise MachineryError(f"step validation of real run {d.get('id')} failed: {v['error']}")
+        if v["status"] == "property" and inv_owner.get(v["invariant"]) == pid:
+            chk.violation(f"{pid}: real {d['method']} run (seed {d['seed']}, regime {d['regime']}) violates Search.tla invariant {v['invariant']} with its own numbers",
+                          {"scenario": d, "invariant": v["invariant"], "state": v["state"], "steps": r["steps"]})
+        if v["status"] == "rejected":
+            chk.note("b2_step_rejected_sample", {"scenario": d, "matched_depth": v["depth"], "events": v["events"]})
+            print(f"NOTE: the real {d['method']} run (seed {d['seed']}) is not a behaviour of Search.tla (matched {v['depth']} states of {v['events']} events): conformance drift")
+    chk.note("b2_step_validation", stat)
+    if stat["accepted"] + stat["property"] + stat["rejected"] < 10:
+        raise MachineryError(f"step validation covered too few real runs: {stat}")
     chk.traces += judged
     chk.note("b2_real_runs_validated", judged)
     chk.note("b2_real_runs_not_judged_nan_temperatures", skipped_nan)
@@ -434,6 +458,10 @@ def run(pid: str) -> int:
     for v in viol[:10]:
         chk.violation(f"{pid}: real code violates {v['false_invariants'] or v['mismatch'][:1]} on TLC behaviour (mode {v['mode']}, cfg {v['cfg']})", v)
     b2_real_runs(chk, pid)
+    if pid == "C20":
+        from .p_io import wiring  # noqa: PLC0415
+
+        wiring(chk)
     chk.note("conformance_drift", len(drift))
     if drift:
         chk.note("conformance_drift_sample", drift[0]["mismatch"][:3])
